@@ -356,3 +356,248 @@ def replay_dl(kind):
 
 REPLAYERS["join"] = replay_dl("join")
 REPLAYERS["run"] = replay_dl("run")
+
+
+# =============================================================== Authz (C02 C03 C04 C12)
+
+CLASSMAP = {"ok": "ok", "denied": "denied", "nomatch": "nomatch", "checkfail": "failed", "other": "failed"}
+
+
+def rows(x):
+    return sorted(map(tuple, x or []))
+
+
+def blk_text(b):
+    return "{%s%s%s}" % ("; ".join(atom_text(a) for a in b["f"]),
+                         ("; " if b["f"] and b["r"] else "") + "; ".join(rule_text(r) for r in b["r"]),
+                         "".join("; check if " + " or ".join(rule_text(q).split("<- ", 1)[1] or "true" for q in c) for c in b["c"]))
+
+
+def az_text(z):
+    return blk_text(z) + " policies[" + ", ".join("%s if %s" % (p["kind"], " or ".join(rule_text(q).split("<- ", 1)[1] or "true" for q in p["q"])) for p in z["p"]) + "]"
+
+
+def inst_text(c):
+    return "T=%s %s A=%s" % (blk_text(c["auth"]), " ".join("B%d=%s" % (i + 1, blk_text(b)) for i, b in enumerate(c["blocks"])), az_text(c["az"]))
+
+
+QUERY_PANEL = [{"h": [11, -1], "b": [[0, -1]], "g": []}, {"h": [11, -1], "b": [[1, -1]], "g": []},
+               {"h": [11], "b": [[2]], "g": []}]
+
+
+def authz_cases(run, insts, mode):
+    """One driver case per exported instance: every prefix token T, T+B1, (T+B1+B2) is built and authorized with the
+    same authorizer content; mode adds the variants of C03 / C12. Each op carries a label used by authz_judge."""
+    out = []
+    for i, c in enumerate(insts):
+        emb = emb_of(run, i)
+        via = ["mem", "bytes"][(emb // 3) % 2]
+        nb = len(c["blocks"])
+        toks, script, labels = [], [], []
+
+        def tok(blocks):
+            toks.append({"auth": c["auth"], "blocks": blocks, "via": via})
+            return len(toks) - 1
+
+        def ops(name, t, extra=(), **addkw):
+            a = len([l for l in labels if l.endswith(".new")])
+            for lab, op in [("new", {"op": "new", "t": t}), ("add", dict({"op": "add", "az": c["az"]}, **addkw)),
+                            ("auth", {"op": "authorize"}), ("world", {"op": "world"})] + list(extra):
+                script.append(dict(op, a=a))
+                labels.append(name + "." + lab)
+        for k in range(nb + 1):
+            ops("p%d" % k, tok(c["blocks"][:k]), [("bw", {"op": "bworlds"})] if k == nb else [])
+        full = "p%d" % nb
+        if mode == "C03":
+            panel = [("q%d" % j, {"op": "query", "q": q}) for j, q in enumerate(QUERY_PANEL)]
+            ops("fullq", tok(c["blocks"]), panel)
+            for bi in range(nb):
+                bl = [dict(b, f=[], r=[]) if j == bi else b for j, b in enumerate(c["blocks"])]
+                ops("strip%d" % bi, tok(bl), panel)
+            if nb == 2:
+                ops("swap", tok([c["blocks"][1], c["blocks"][0]]), [("bw", {"op": "bworlds"})])
+        if mode == "C12":
+            ops("shuf", tok(c["blocks"]), [("auth2", {"op": "authorize"}), ("world2", {"op": "world"})], shuf=emb % 9973 + 1, dup=True)
+            ops("twice", tok(c["blocks"]), [("auth2", {"op": "authorize"}), ("world2", {"op": "world"})])
+        out.append({"id": "z%d" % i, "emb": emb, "toks": toks, "script": script, "labels": labels,
+                    "shuf": (emb % 7919 + 1) if mode == "C12" else 0})
+    return out
+
+
+def authz_judge(c, dc, o, mode):
+    """Compare the observations of one instance with the expectations TLC exported. Returns list of discrepancy texts."""
+    if "obs" not in o:
+        return ["driver: " + json.dumps(o)[:300]]
+    ob = dict(zip(dc["labels"], o["obs"]))
+    nb = len(c["blocks"])
+    bad = []
+    names = ["T"] + ["T+" + "+".join("B%d" % (j + 1) for j in range(k)) for k in range(1, nb + 1)]
+    vs = [ob["p%d.auth" % k].get("v") for k in range(nb + 1)]
+    for k in range(nb + 1):
+        exp = {CLASSMAP[x] for x in c["vs"][k]}
+        if vs[k] not in exp:
+            bad.append("Authorize(%s) = %s, specification says %s" % (names[k], vs[k], sorted(exp)))
+        if k > 0 and vs[k] == "ok" and vs[k - 1] != "ok":
+            bad.append("attenuation widened: Authorize(%s) ok but Authorize(%s) = %s" % (names[k], names[k - 1], vs[k - 1]))
+    world = rows(c["world"])
+    full = "p%d" % nb
+    if not c["werr"] and rows(ob["p0.world"].get("rows")) != world:
+        bad.append("authority-level facts after Authorize(T) = %s, specification says %s" % (rows(ob["p0.world"].get("rows")), world))
+    if not c["berr"]:
+        for k in range(1, nb + 1):
+            if rows(ob["p%d.world" % k].get("rows")) != world:
+                bad.append("authority-level facts after Authorize(%s) = %s differ from those of T = %s (block content leaked)" % (
+                    names[k], rows(ob["p%d.world" % k].get("rows")), world))
+        # NOTE: the per-block worlds kept by the authorizer (hook accessor) are deliberately NOT compared: they are
+        # internal, never read again by the library, and the shared backing array of World.Clone lets a later block
+        # overwrite them after their checks were evaluated -- unobservable, hence no property violation (DESIGN.md section 7).
+    if mode == "C03" and not c["berr"]:
+        for bi in range(nb):
+            st = "strip%d" % bi
+            if rows(ob[st + ".world"].get("rows")) != rows(ob["fullq.world"].get("rows")):
+                bad.append("authority-level facts differ with/without B%d's facts and rules: %s vs %s" % (
+                    bi + 1, rows(ob["fullq.world"].get("rows")), rows(ob[st + ".world"].get("rows"))))
+            for qi in range(len(QUERY_PANEL)):
+                x, y = ob["fullq.q%d" % qi], ob[st + ".q%d" % qi]
+                if rows(x.get("rows")) != rows(y.get("rows")) or x.get("v") != y.get("v"):
+                    bad.append("Query #%d differs with/without B%d's facts and rules: %s vs %s" % (qi, bi + 1, rows(x.get("rows")), rows(y.get("rows"))))
+        for qi in range(len(QUERY_PANEL)):
+            exp = sorted(tuple(f[1:]) for f in world if f[0] == QUERY_PANEL[qi]["b"][0][0])
+            if rows(ob["fullq.q%d" % qi].get("rows")) != exp:
+                bad.append("Query #%d = %s, specification says %s" % (qi, rows(ob["fullq.q%d" % qi].get("rows")), exp))
+        if nb == 2:
+            if ob["swap.auth"].get("v") != vs[nb]:
+                bad.append("block order changes the outcome: %s vs %s" % (ob["swap.auth"].get("v"), vs[nb]))
+    if mode == "C12":
+        for nm in ("shuf", "twice"):
+            v1, v2 = ob[nm + ".auth"].get("v"), ob[nm + ".auth2"].get("v")
+            if v1 != vs[nb]:
+                bad.append("presentation '%s' gives %s, plain presentation gives %s" % (nm, v1, vs[nb]))
+            if v2 != v1:
+                bad.append("second Authorize (%s) gives %s, first gave %s" % (nm, v2, v1))
+            if not c["berr"]:
+                for w in (nm + ".world", nm + ".world2"):
+                    if rows(ob[w].get("rows")) != world:
+                        bad.append("derived facts (%s) = %s, specification says %s" % (w, rows(ob[w].get("rows")), world))
+    return bad
+
+
+def authz_check(run, mode, cfgs, sample_n=None):
+    driver = core.build_driver(run.work)
+    insts = []
+    for module, cfg, what, kw in cfgs:
+        r = core.tlc(run.work, module, cfg, timeout=3400, **kw)
+        run.add_tlc(r, what)
+        if kw.get("expect_violation"):
+            if not r.violated:
+                raise Infra("negative model %s did not violate its invariant: the theorem is vacuous" % cfg)
+            run.notes.append("negative model %s: TLC reports %s violated (mechanism is necessary)" % (cfg, r.violated))
+            continue
+        insts += r.cases
+    cases = authz_cases(run, insts, mode)
+    res = core.run_driver(driver, "authz", cases, per_case_timeout=120)
+    nbad = 0
+    for c, dc in zip(insts, cases):
+        o = res[dc["id"]]
+        run.count(json.dumps([c["auth"], c["blocks"], c["az"]]) if any(b["f"] or b["r"] or b["c"] for b in c["blocks"]) and c["az"]["p"] else None)
+        bad = authz_judge(c, dc, o, mode) if not o.get("crash") else ["process died: " + o.get("stderr", "")[-300:]]
+        if bad and nbad < 25:
+            nbad += 1
+            sig = {"instance": inst_text(c), "what": bad[0][:80]}
+            rc = confirm_case(driver, "authz", dc, o, ("obs",))
+            run.report(sig, dict(dc, inst=c, mode=mode), "authz", "%s: %s" % (inst_text(c), "; ".join(bad)), (lambda rc=rc: rc is not None))
+    run.traces += len(cases)
+    mid = insts[len(insts) // 2]
+    run.sample({"instance": inst_text(mid), "spec_verdict_per_prefix": mid["vs"], "authority_closure": mid["world"], "block_worlds": mid["bws"]})
+    return insts
+
+
+def replay_authz(run, body):
+    driver = core.build_driver(run.work)
+    dc = dict(body["case"])
+    c, mode = dc.pop("inst"), dc.pop("mode")
+    o = core.run_driver(driver, "authz", [dc], nproc=1)[str(dc["id"])]
+    bad = authz_judge(c, dc, o, mode) if not o.get("crash") else ["process died"]
+    run.count("replay")
+    if bad:
+        run.report(body["sig"], body["case"], "authz", "replayed: %s: %s" % (inst_text(c), "; ".join(bad)))
+
+
+REPLAYERS["authz"] = replay_authz
+
+AUTHZ_ASSUME = ["Datalog fragment of the model: ground facts, range-restricted rules, guards lt/le/eq/ne/true/false/uniformly-failing",
+                "catalogue constants are embedded into concrete terms of every type (seed-chosen, order-preserving when needed)",
+                "error classes: a failed check and an evaluation error are both observed as 'verification failure' (no exported sentinel distinguishes them)"]
+
+
+def authz_cfgs(run, negs, quick=("AuthzMC_two",)):
+    ONE = ("AuthzMC", "AuthzMC_quick", "L1 theorems on every one-later-block catalogue instance + export", {})
+    TWO = ("AuthzMC", "AuthzMC_two", "L1 theorems on every two-later-blocks instance + export", {})
+    if run.tier == "thorough":
+        cfgs = [("AuthzMC", "AuthzMC_thorough", "L1 theorems on every one-later-block instance (full authorizer catalogue) + export", {}), TWO,
+                ("AuthzMC", "AuthzMC_sample", "L1 theorems on random instances of the rich catalogue + export", {"seed": run.seed})]
+    else:
+        cfgs = [c for c in (ONE, TWO) if c[1] in quick]
+    for n in negs:
+        cfgs.append(("AuthzMC", "AuthzMC_neg_" + n, "negative model " + n, {"expect_violation": True}))
+    return cfgs
+
+
+AUTHZ_RULE = ("TLC enumerates every (authority block, appended block, authorizer+ordered policies) instance over small catalogues "
+              "(quick 89,856 one-block + 31,104 two-block instances; thorough 606,528 + 31,104 + 96,000 random instances of a richer catalogue with guards and failing expressions), "
+              "checks the model theorems, and exports each instance with the specification's verdicts, authority-level closure and "
+              "block world; the driver builds both T and T+B with the real builders (in memory or through Serialize/Unmarshal), "
+              "authorizes both and compares. Non-trivial = distinct instances with a non-empty appended block and at least one policy.")
+
+
+@check("C04")
+def c04(run):
+    run.rule = AUTHZ_RULE + " C04: verdict class of T and of T+B must be in RefVerdict (declarative decision procedure)."
+    run.assumptions = AUTHZ_ASSUME
+    authz_check(run, "C04", authz_cfgs(run, ["NoReset"], quick=("AuthzMC_quick",)))
+
+
+@check("C02")
+def c02(run):
+    run.rule = AUTHZ_RULE + " C02: Authorize(T+B) = ok implies Authorize(T) = ok, and both equal the specification (theorem Monotone)."
+    run.assumptions = AUTHZ_ASSUME
+    authz_check(run, "C02", authz_cfgs(run, ["PolAfter"]))
+
+
+@check("C03")
+def c03(run):
+    run.rule = AUTHZ_RULE + (" C03: additionally T + (B reduced to its checks) is authorized and a panel of authorizer queries is run on both: "
+                             "worlds, query results and every other component must be identical (theorem Scoped), the block world must "
+                             "contain the authority closure (Visible).")
+    run.assumptions = AUTHZ_ASSUME
+    authz_check(run, "C03", authz_cfgs(run, ["NoClone"]))
+
+
+@check("C12")
+def c12(run):
+    run.rule = AUTHZ_RULE + (" C12: additionally every instance is presented shuffled (facts, rules, checks, queries inside a check; "
+                             "never policies), with every authorizer fact added twice, under a different variable naming, and Authorize "
+                             "is called twice: verdict and derived facts must equal the single specification value.")
+    run.assumptions = AUTHZ_ASSUME
+    authz_check(run, "C12", authz_cfgs(run, []))
+    # engine level: the programs of DatalogRun (recursion, mutual recursion, guards) evaluated with facts and rules
+    # presented in a seed-chosen order; every order must give the specification's least fixpoint
+    import random
+    driver = core.build_driver(run.work)
+    r2 = core.tlc(run.work, "DatalogRun", "DatalogRun_thorough" if run.tier == "thorough" else "DatalogRun_quick", timeout=3400)
+    run.add_tlc(r2, "L1 Run loop vs Lfp + export (programs to permute)")
+    rnd = random.Random(run.seed)
+    runs, seen = [], set()
+    for i, c in enumerate(r2.cases):
+        key = json.dumps([c["facts"], c["rules"]])
+        if key in seen or len(c["rules"]) + len(c["facts"]) < 2:
+            continue
+        seen.add(key)
+        for v in range(2):
+            f, r = list(c["facts"]), list(c["rules"])
+            rnd.shuffle(f)
+            rnd.shuffle(r)
+            runs.append({"id": "perm%d_%d" % (i, v), "emb": emb_of(run, i + v), "facts": f + f[:1], "rules": r, "mf": 1000, "mi": 100, "queries": []})
+            run.count(("perm", json.dumps(f), json.dumps(r)))
+    validate_dl(run, driver, [], runs, "C12 permuted program")
+    run.sample({"permuted_program": dl_text("run", runs[len(runs) // 2])})
